@@ -443,14 +443,23 @@ func c18r6(rc *core.RC) {
 // as json.Number: the decoder it uses must have UseNumber set before Decode (a plain Unmarshal, or
 // a Decoder without UseNumber, converts every number to float64 and back).
 func c18r7(rc *core.RC) {
+	decodesWithUseNumber(rc, "HTMLEscape", "json.HTMLEscape/numbers-kept-as-text", "which turns every number into a float64: 9007199254740993 comes back as 9007199254740992 and long decimals are shortened")
+}
+
+// C18.R11: validity is a matter of syntax. A Decoder that converts numbers to float64 fails on a number beyond the
+// float64 range, which is a valid JSON number.
+func c18r11(rc *core.RC) {
+	decodesWithUseNumber(rc, "Valid", "json.Valid/numbers-not-converted", "which converts every number to float64 and fails on a range error: Valid(`1e400`) is false where encoding/json says true")
+}
+
+func decodesWithUseNumber(rc *core.RC, fname, key, consequence string) {
 	p := rc.P
-	fd := p.Func("json", "HTMLEscape")
-	key := "json.HTMLEscape/numbers-kept-as-text"
+	fd := p.Func("json", fname)
 	if fd == nil {
 		rc.Unknown(key, token.NoPos, "not found")
 		return
 	}
-	rc.Touch("json.HTMLEscape")
+	rc.Touch("json." + fname)
 	info := p.Info(fd)
 	var useNum, decode ast.Node
 	var decObj, useObj types.Object
@@ -479,9 +488,9 @@ func c18r7(rc *core.RC) {
 	})
 	switch {
 	case plain != "":
-		rc.Bad(key, fd.Pos(), "HTMLEscape decodes with %s, which turns every number into a float64: 9007199254740993 comes back as 9007199254740992 and long decimals are shortened", plain)
+		rc.Bad(key, fd.Pos(), "%s decodes with %s, %s", fname, plain, consequence)
 	case decode == nil || useNum == nil:
-		rc.Bad(key, fd.Pos(), "HTMLEscape does not decode through a Decoder on which UseNumber was called")
+		rc.Bad(key, fd.Pos(), "%s does not decode through a Decoder on which UseNumber was called, %s", fname, strings.Replace(consequence, "which", "so it", 1))
 	default:
 		rc.Check(decObj != nil && decObj == useObj && useNum.Pos() < decode.Pos(), key, decode.Pos(), "the Decoder that decodes the text had UseNumber called on it before Decode")
 	}
